@@ -147,24 +147,32 @@ def mutations(g, rng):
 
 
 # ------------------------------------------------------------------ rendering
-def render_flow(name, g, order=None, maxk=0):
-    """One function holding one cff.Flow. order: permutation of option indices (None = graph order)."""
+SPELL = {"named": ("T%d", "T%d{}"), "slice": ("[]T%d", "[]T%d{}"), "ptr": ("*T%d", "&T%d{}"), "map": ("map[string]T%d", "map[string]T%d{}")}
+
+
+def render_flow(name, g, order=None, maxk=0, spell=None):
+    """One function holding one cff.Flow. order: permutation of option indices (None = graph order).
+    spell: {type: kind}: how each value type is spelled (a named struct, or an unnamed slice / pointer / map
+    type written out at every use: identical types, distinct type expressions)."""
+    spell = spell or {}
+    T = lambda ty: SPELL[spell.get(ty, "named")][0] % ty
+    Z = lambda ty: SPELL[spell.get(ty, "named")][1] % ty
     lines = ["func %s(ctx context.Context) error {" % name]
     for ty in sorted(set(g["results"])):
-        lines.append("\tvar r%d T%d" % (ty, ty))
+        lines.append("\tvar r%d %s" % (ty, T(ty)))
     opts = []
     if g["params"]:
-        opts.append("\t\tcff.Params(%s)," % ", ".join("T%d{}" % ty for ty in g["params"]))
+        opts.append("\t\tcff.Params(%s)," % ", ".join(Z(ty) for ty in g["params"]))
     if g["results"]:
         opts.append("\t\tcff.Results(%s)," % ", ".join("&r%d" % ty for ty in g["results"]))
     for tk in g["tasks"]:
-        ins = ", ".join("a%d T%d" % (i, ty) for i, ty in enumerate(tk["ins"]))
-        outs = ["T%d" % ty for ty in tk["outs"]] + ["error"]
-        ret = ", ".join(["T%d{}" % ty for ty in tk["outs"]] + ["nil"])
+        ins = ", ".join("a%d %s" % (i, T(ty)) for i, ty in enumerate(tk["ins"]))
+        outs = [T(ty) for ty in tk["outs"]] + ["error"]
+        ret = ", ".join([Z(ty) for ty in tk["outs"]] + ["nil"])
         sig = "(" + ", ".join(outs) + ")" if len(outs) > 1 else outs[0]
         s = "\t\tcff.Task(\n\t\t\tfunc(%s) %s { return %s },\n" % (ins, sig, ret)
         if tk["haspred"]:
-            pins = ", ".join("a%d T%d" % (i, ty) for i, ty in enumerate(tk["pins"]))
+            pins = ", ".join("a%d %s" % (i, T(ty)) for i, ty in enumerate(tk["pins"]))
             s += "\t\t\tcff.Predicate(func(%s) bool { return true }),\n" % pins
         if tk["invoke"]:
             s += "\t\t\tcff.Invoke(true),\n"
@@ -197,7 +205,9 @@ def write_pkg(root, pkg, files, maxk):
         text = head
         line = text.count("\n") + 1
         for name, g, order in flows:
-            src = render_flow(name, g, order)
+            srng = random.Random(hash(name) % (2 ** 31))
+            spell = {ty: srng.choice(["named", "named", "slice", "ptr", "map"]) for ty in range(1, maxk + 1)}
+            src = render_flow(name, g, order, spell=spell)
             n = src.count("\n")
             where[name] = (fn, line, line + n - 1)
             text += src + "\n"
